@@ -28,7 +28,7 @@ X = 6
 def case_strategy(draw, tier="quick"):
     return {"k": draw(st.sampled_from([1, 2, 2, 3])), "fmt": draw(st.sampled_from([1, 2, 5])), "safe": G.chance(draw, 20),
             "hcoll": G.chance(draw, 30), "fill": G.chance(draw, 60), "grow": draw(st.sampled_from([0, 60, 900])),
-            "recvars": draw(st.integers(1, 2)), "parts": sorted(draw(st.sets(st.sampled_from(["coll", "indep", "nb", "bput", "get", "fillrec", "redef", "reopen", "sync", "vard", "varn", "mixed", "redef_indep", "meta"]), min_size=3))),
+            "recvars": draw(st.integers(1, 2)), "parts": sorted(draw(st.sets(st.sampled_from(["coll", "indep", "nb", "bput", "get", "fillrec", "redef", "reopen", "sync", "vard", "varn", "mixed", "redef_indep", "meta", "nb_indep"]), min_size=3))),
             "align": draw(st.sampled_from([0, 4, 512])), "seed": draw(st.integers(0, 1000))}
 
 
@@ -123,6 +123,27 @@ def build(case, upto=None, fault=None):
             p.op("data", ranks=[r], what="iput", api="iput", form="var1", coll=0, mt="int", f="f0", v=0, start=[(r + 3) % X], buf=ibuf(r, [seed + 11]), req=q2)
             qs[r] = [q1, q2]
         percall("wait", "wait_all(iput)", lambda r: dict(f="f0", coll=1, reqs=qs[r], st=1))
+    if "nb_indep" in parts:
+        # independent completion (ncmpi_wait) of two requests whose buffers are not adjacent: one MPI_File_write_at / read_at
+        # with a derived memory datatype (the packed temporary-buffer branch of ncmpio_read_write)
+        A("begin_indep", step=True, f="f0")
+        for r in range(k):
+            q1, q2 = p.newreq(), p.newreq()
+            p.op("data", ranks=[r], what="iput", api="iput", form="vara", coll=0, mt="int", f="f0", v=1, start=[5 * k + r, 0], count=[1, X], buf=ibuf(r, [seed + 21] * X), req=q1)
+            p.op("data", ranks=[r], what="iput", api="iput", form="var1", coll=0, mt="int", f="f0", v=0, start=[(r + 1) % X], buf=ibuf(r, [seed + 23]), req=q2)
+            n = p.op("wait", ranks=[r], what="wait(2 iput, independent)", f="f0", coll=0, reqs=[q1, q2], st=1)
+            ops.append((n, "wait(2 iput, independent)"))
+            g1, g2 = p.newreq(), p.newreq()
+            b1, b2 = p.newbuf(), p.newbuf()
+            p.s.op("buf", ranks=[r], b=b1, size=4 * X, fill=0xEE)
+            p.s.op("buf", ranks=[r], b=b2, size=4, fill=0xEE)
+            p.op("data", ranks=[r], what="iget", api="iget", form="vara", coll=0, mt="int", f="f0", v=1, start=[5 * k + r, 0], count=[1, X], buf=b1, req=g1)
+            p.op("data", ranks=[r], what="iget", api="iget", form="var1", coll=0, mt="int", f="f0", v=0, start=[(r + 1) % X], buf=b2, req=g2)
+            n = p.op("wait", ranks=[r], what="wait(2 iget, independent)", f="f0", coll=0, reqs=[g1, g2], st=1)
+            ops.append((n, "wait(2 iget, independent)"))
+            if k > 1:
+                p.op("barrier", expect=None)
+        A("end_indep", step=True, f="f0")
     if "bput" in parts:
         qs = {}
         for r in range(k):
